@@ -16,7 +16,7 @@ BOUNDS = {
 }
 STUBS = ["the status code is injected as Response._status_code (status text normalisation is a table lookup, checked separately for ints)"]
 ASSUMPTIONS = ["no Location header (IRI handling is stdlib URL code)", "body items are bytes"]
-OUTSIDE = ["str body items / charset encoding", "file wrappers in direct passthrough", "Location autocorrection", "generator bodies (not a sequence: no computed length)"]
+OUTSIDE = ["str body items / charset encoding", "real file wrappers (direct passthrough is exercised with a closable iterable)", "Location autocorrection", "generator bodies (not a sequence: no computed length)"]
 
 
 def body_wsgi_response(I, X, method="GET", lens=(1, 2), preset="absent"):
@@ -70,6 +70,53 @@ def body_wsgi_response(I, X, method="GET", lens=(1, 2), preset="absent"):
             ok = pand(ok, cl is not None and len(cl) == 1 and peq(cl[0], str(total) if preset == "right" else "7"))
     ok = pand(ok, len(closed) == 1)
     return ok, {"out": out, "headers": headers, "closed": len(closed)}
+
+
+class PassBody:
+    """an application iterable handed through in direct passthrough mode"""
+
+    def __init__(self, chunks):
+        self.chunks = list(chunks)
+        self.closed = 0
+
+    def __iter__(self):
+        return iter(self.chunks)
+
+    def close(self):
+        self.closed += 1
+
+
+def body_passthrough(I, X, method="GET", lens=(2,)):
+    """direct passthrough bodies: still no body bytes for HEAD / bodyless statuses, and the
+    close callbacks and the wrapped iterable's close run exactly once"""
+    from werkzeug.wrappers import Response
+
+    chunks = [X.bytes(f"c{i}", n, minlen=n) for i, n in enumerate(lens)]
+    pb = PassBody(chunks)
+    resp = Response(pb, direct_passthrough=True)
+    status = X.int("status", 100, 599)
+    resp._status_code = status
+    resp._status = "200 OK"
+    closed = []
+    resp.call_on_close(lambda: closed.append(1))
+    bodyless0 = por(pand(status >= 100, status < 200), peq(status, 204), peq(status, 304))
+    # known finding: when the passthrough body is actually handed out, closing it does not
+    # run the response's registered close callbacks
+    X.known("C05-passthrough-skips-close-callbacks", pand(method != "HEAD", pnot(bodyless0)))
+    environ = {"REQUEST_METHOD": method, "wsgi.url_scheme": "http", "SERVER_NAME": "s", "SERVER_PORT": "80", "PATH_INFO": "/"}
+    app_iter, st, headers = I.call(resp.get_wsgi_response, (environ,))
+    out = b""
+    for item in (I.call(app_iter.__iter__, ()) if not isinstance(app_iter, (tuple, list)) else app_iter):
+        out = pconcat(out, item)
+    if hasattr(app_iter, "close"):
+        I.call(app_iter.close, ())
+    bodyless = por(pand(status >= 100, status < 200), peq(status, 204), peq(status, 304))
+    if method == "HEAD" or bool(bodyless):
+        ok = plen(out) == 0
+    else:
+        ok = peq(out, pconcat(b"", *chunks))
+    ok = pand(ok, len(closed) == 1, pb.closed == 1)
+    return ok, {"out": out, "closed": len(closed), "body_closed": pb.closed}
 
 
 MUTATORS = ["add", "set", "setitem", "setlist", "extend-list", "extend-kw", "update-dict", "setdefault", "add_header", "index-assign",
@@ -156,6 +203,10 @@ def obligations(tier, seed):
                 out.append({"name": f"wsgi_response[{method},lens={lens},cl={preset}]", "body": "body_wsgi_response",
                             "params": {"method": method, "lens": list(lens), "preset": preset},
                             "opts": {"budget_s": 600, "ctx": {"bv_ints": True}}, "witness": lens == (1, 2) and preset == "absent"})
+    for method in ("GET", "HEAD", "POST"):
+        for lens in [(), (2,), (1, 0, 2)]:
+            out.append({"name": f"passthrough[{method},lens={lens}]", "body": "body_passthrough", "params": {"method": method, "lens": list(lens)},
+                        "opts": {"budget_s": 600, "ctx": {"bv_ints": True}}, "witness": lens == (2,)})
     for m in MUTATORS:
         for n in (range(0, 5) if quick else range(0, 6)):
             out.append({"name": f"header_hygiene[{m},n={n}]", "body": "body_header_hygiene", "params": {"mutator": m, "n": n},
